@@ -41,6 +41,7 @@ type Decision struct {
 	Alt   int    // 'b': 0 = condition true, 1 = false
 	Val   uint64 // 'c': chosen value
 	Arity int
+	Site  int // source position of the deciding instruction (replay divergence guard)
 }
 
 type WorkItem struct {
@@ -100,6 +101,7 @@ type pathState struct {
 	fresh    int
 	choiceN  map[string]int
 	ev       *smt.Evaluator
+	pcSet    map[int]bool
 	evFor    smt.Model
 }
 
@@ -267,7 +269,21 @@ func (i *interpreter) addPC(t *smt.Term) {
 	if t.IsConst() {
 		return
 	}
-	i.path.pc = append(i.path.pc, t)
+	p := i.path
+	if p.pcSet == nil {
+		p.pcSet = map[int]bool{}
+	}
+	if p.pcSet[t.ID] {
+		return
+	}
+	p.pcSet[t.ID] = true
+	p.pc = append(p.pc, t)
+	// conjuncts of a conjunction are facts too (cheap syntactic implication)
+	if t.Op == smt.OAnd {
+		for _, a := range t.Args {
+			p.pcSet[a.ID] = true
+		}
+	}
 }
 
 func (i *interpreter) evalModel(t *smt.Term) (bool, bool) {
@@ -322,6 +338,13 @@ func hasUF(t *smt.Term) bool {
 	return rec(t)
 }
 
+func (i *interpreter) site() int {
+	if i.top != nil && i.top.cur != nil {
+		return int(i.top.cur.Pos())
+	}
+	return 0
+}
+
 // decide returns the truth value of a symbolic condition on this path, forking the
 // exploration when both outcomes are feasible.
 func (i *interpreter) decide(c *smt.Term) bool {
@@ -329,11 +352,19 @@ func (i *interpreter) decide(c *smt.Term) bool {
 		return c.Val == 1
 	}
 	p := i.path
+	// syntactically implied by the path condition: no decision at all (checked before
+	// the replay test so that replayed paths skip exactly the same decisions)
+	if p.pcSet[c.ID] {
+		return true
+	}
+	if p.pcSet[i.ctx.Not(c).ID] {
+		return false
+	}
 	k := len(p.trail)
 	if k < len(p.prefix) {
 		d := p.prefix[k]
-		if d.Kind != 'b' {
-			panic(pathEnd{kind: "engine-error", msg: fmt.Sprintf("replay divergence at decision %d: expected kind %c, got branch", k, d.Kind)})
+		if d.Kind != 'b' || d.Site != i.site() {
+			panic(pathEnd{kind: "engine-error", msg: fmt.Sprintf("replay divergence at decision %d: recorded kind %c site %d, now branch at site %d", k, d.Kind, d.Site, i.site())})
 		}
 		p.trail = append(p.trail, d)
 		if d.Alt == 0 {
@@ -384,19 +415,19 @@ func (i *interpreter) decide(c *smt.Term) bool {
 	switch {
 	case tOK && fOK:
 		// take true now, queue false
-		pre := append(append([]Decision(nil), p.trail...), Decision{Kind: 'b', Alt: 1, Arity: 2})
+		pre := append(append([]Decision(nil), p.trail...), Decision{Kind: 'b', Alt: 1, Arity: 2, Site: i.site()})
 		p.res.NewWork = append(p.res.NewWork, WorkItem{Prefix: pre, Model: fModel})
-		p.trail = append(p.trail, Decision{Kind: 'b', Alt: 0, Arity: 2})
+		p.trail = append(p.trail, Decision{Kind: 'b', Alt: 0, Arity: 2, Site: i.site()})
 		i.addPC(c)
 		p.model = tModel
 		return true
 	case tOK:
-		p.trail = append(p.trail, Decision{Kind: 'b', Alt: 0, Arity: 1})
+		p.trail = append(p.trail, Decision{Kind: 'b', Alt: 0, Arity: 1, Site: i.site()})
 		i.addPC(c)
 		p.model = tModel
 		return true
 	case fOK:
-		p.trail = append(p.trail, Decision{Kind: 'b', Alt: 1, Arity: 1})
+		p.trail = append(p.trail, Decision{Kind: 'b', Alt: 1, Arity: 1, Site: i.site()})
 		i.addPC(nc)
 		p.model = fModel
 		return false
@@ -423,8 +454,8 @@ func (i *interpreter) concretiseTerm(t *smt.Term, what string) uint64 {
 	}
 	if k < len(p.prefix) {
 		d := p.prefix[k]
-		if d.Kind != 'c' {
-			panic(pathEnd{kind: "engine-error", msg: fmt.Sprintf("replay divergence at decision %d: expected kind %c, got concretise(%s)", k, d.Kind, what)})
+		if d.Kind != 'c' || d.Site != i.site() {
+			panic(pathEnd{kind: "engine-error", msg: fmt.Sprintf("replay divergence at decision %d: recorded kind %c site %d, now concretise(%s) at site %d", k, d.Kind, d.Site, what, i.site())})
 		}
 		p.trail = append(p.trail, d)
 		i.addPC(eqv(d.Val))
@@ -474,11 +505,11 @@ func (i *interpreter) concretiseTerm(t *smt.Term, what string) uint64 {
 	}
 	sort.Slice(idx, func(a, b int) bool { return vals[idx[a]] < vals[idx[b]] })
 	for _, j := range idx[1:] {
-		pre := append(append([]Decision(nil), p.trail...), Decision{Kind: 'c', Val: vals[j], Arity: len(vals)})
+		pre := append(append([]Decision(nil), p.trail...), Decision{Kind: 'c', Val: vals[j], Arity: len(vals), Site: i.site()})
 		p.res.NewWork = append(p.res.NewWork, WorkItem{Prefix: pre, Model: models[j]})
 	}
 	j := idx[0]
-	p.trail = append(p.trail, Decision{Kind: 'c', Val: vals[j], Arity: len(vals)})
+	p.trail = append(p.trail, Decision{Kind: 'c', Val: vals[j], Arity: len(vals), Site: i.site()})
 	i.addPC(eqv(vals[j]))
 	p.model = models[j]
 	return vals[j]
